@@ -189,6 +189,21 @@ func c16Gen(r *Rng, i int, thorough bool) c16Case {
 		}
 		return c
 	}
+	// fixed positions carry one large batch of small metrics ("all batches": list sizes around the
+	// one-byte / two-byte varint boundary of the Compact list header and beyond 255 / 256)
+	if pos := i % 150; pos >= 18 && pos < 26 {
+		n := []int{127, 128, 255, 256, 257, 300, 400, 500}[pos-18]
+		op := c16Op{Op: []string{"batch", "emit"}[pos%2], Common: c16Tags(r, 2), Seq: 7}
+		for k := 0; k < n; k++ {
+			m := c16GenMetric(r, 1)
+			if len(m.Name) > 12 {
+				m.Name = m.Name[:12]
+			}
+			op.Metrics = append(op.Metrics, m)
+		}
+		c.Ops = append(c.Ops, op)
+		return c
+	}
 	nops := 1 + r.Intn(4)
 	// a few fixed positions carry one long string: beyond the two-byte varint length (Compact)
 	// and across the 32 KiB chunking of the Binary string reader
